@@ -58,7 +58,7 @@ func (g *stormGuard) handler(name string, arg any) {
 	key := fmt.Sprintf("%p", arg)
 	now := time.Now()
 	g.mtx.Lock()
-	g.tr.Flushes = append(g.tr.Flushes, FlushEnter{GroupKey: fmt.Sprint(arg), At: now})
+	g.tr.Flushes = append(g.tr.Flushes, FlushEnter{GroupKey: fmt.Sprint(arg), Group: key, At: now})
 	if g.last[key].Equal(now) {
 		g.count[key]++
 	} else {
